@@ -13,7 +13,7 @@ def ranWhen : Ev → Option Int | .ranT _ _ _ wh _ _ => some wh | _ => none
 def removedOf : Ev → Option Nat | .removed h => some h | _ => none
 def isRanOf (h : Nat) : Ev → Bool | .ranT h' _ _ _ _ _ => h' == h | _ => false
 def isSchedTOf (h : Nat) : Ev → Bool | .schedT h' _ _ _ => h' == h | _ => false
-def isFailure : Ev → Bool | .fin _ .raise => true | .failedFuture => true | _ => false
+def isFailure : Ev → Bool | .fin _ .raise => true | .fin _ .retFailed => true | _ => false
 def isLogged : Ev → Bool | .logged _ => true | _ => false
 def schedTh : Ev → Option Nat | .schedT h _ _ _ => some h | _ => none
 
@@ -58,8 +58,10 @@ def iterOk : Ev → Bool
   | _ => true
 def laterIteration (l : List Ev) : Prop := ∀ e ∈ l, iterOk e = true
 
-/-- every raising callback and every failed returned future produced exactly one log record (and nothing else did) -/
-def errorsLogged (l : List Ev) : Prop := l.countP isFailure = l.countP isLogged
+/-- nothing is logged that is not a raising callback or a failed returned future … -/
+def errorsLogged (l : List Ev) : Prop := l.countP isLogged ≤ l.countP isFailure
+/-- … and once idle each of those produced exactly one log record -/
+def errorsAllLogged (l : List Ev) : Prop := l.countP isFailure = l.countP isLogged
 
 instance (l : List Ev) : Decidable (fifo l) := by unfold fifo; infer_instance
 instance (l : List Ev) : Decidable (allRan l) := by unfold allRan; infer_instance
@@ -71,6 +73,7 @@ instance (l : List Ev) : Decidable (timerAtMostOnce l) := by unfold timerAtMostO
 instance (l : List Ev) : Decidable (timersAccounted l) := by unfold timersAccounted; infer_instance
 instance (l : List Ev) : Decidable (laterIteration l) := by unfold laterIteration; infer_instance
 instance (l : List Ev) : Decidable (errorsLogged l) := by unfold errorsLogged; infer_instance
+instance (l : List Ev) : Decidable (errorsAllLogged l) := by unfold errorsAllLogged; infer_instance
 
 /-- names of the clauses violated by an observed trace (`idle`: the loop had nothing left to do at the end) -/
 def violations (l : List Ev) (idle : Bool) : List String :=
@@ -83,7 +86,8 @@ def violations (l : List Ev) (idle : Bool) : List String :=
   (if timerAtMostOnce l then [] else ["timeout_twice"]) ++
   (if idle && !decide (timersAccounted l) then ["timeout_lost"] else []) ++
   (if laterIteration l then [] else ["iteration"]) ++
-  (if errorsLogged l then [] else ["error_logging"])
+  (if errorsLogged l then [] else ["spurious_log"]) ++
+  (if idle && !decide (errorsAllLogged l) then ["error_not_logged"] else [])
 
 /-! ### run_sync: "returns the function's result, re-raises its exception, or raises TimeoutError after cancelling it" -/
 
@@ -103,6 +107,12 @@ def immediate : Func → Bool
   | _ => true
 
 def runSyncSpec (f : Func) (timeout : Option Nat) : Outcome :=
+  match f with
+  | .stopsLoop d =>   -- outside the property's three cases: an explicit IOLoop.stop() ends run_sync with RuntimeError
+    (match timeout with
+     | some t => if d < t then .runtimeError else .timeoutError
+     | none => .runtimeError)
+  | _ =>
   match completion f, timeout with
   | some (_, o), none => o
   | some (d, o), some t => if immediate f || d < t then o else .timeoutError
